@@ -694,16 +694,21 @@ func (prop c10) Execute(sc *sim.Scenario) *sim.Outcome {
 		// quick tier: at most ~150 placements per program (every stride-th one,
 		// deterministically) so that one large program cannot eat the budget
 		stride, count := 1, 0
+		// every placement re-executes the program: long programs get fewer of them
+		capQ, capT := 150, 1500
+		if nsteps > 40 {
+			capQ, capT = 6000/nsteps+1, 60000/nsteps+1
+		}
 		if mode == 1 {
 			est := len(base.cross) * (2 + len(base.bpSteps))
-			if est > 150 {
-				stride = (est + 149) / 150
+			if est > capQ {
+				stride = (est + capQ - 1) / capQ
 			}
 		} else {
 			// thorough: every later instant, but at most ~1500 placements per program
 			est := len(base.cross) * nsteps / 2
-			if est > 1500 {
-				stride = (est + 1499) / 1500
+			if est > capT {
+				stride = (est + capT - 1) / capT
 			}
 		}
 		for k, cr := range base.cross {
